@@ -10,15 +10,19 @@
   2. predicate / guard theorems about the regenerated decision predicates the lifetime logic
      hinges on (sentinels, ownership, const-ness, the four small-buffer comparisons, the guards
      in front of non-const dispatch), and `const_violation_throws`, `dispatch_own_object`.
-  3. the structural invariant `Inv` of the pool over the checked ghost heap, proved preserved
-     (no bound on the history) by the operations listed at `inv_step_partial`; see the comment
-     there for the full statement and what is missing.
+  3. the invariant `Inv` (structural part `InvS` + id-level part `InvI`, both defined in
+     `Alpaqa/Proofs/C16Inv.lean`, `…/C16Ids.lean`) of the pool over the checked ghost heap, proved
+     preserved by *every* operation (`inv_step`), hence for every operation sequence of any
+     length (`inv_run`, `no_error`), and its consequences: `construct_destroy_once`,
+     `blocks_returned_to_origin`, `dispatch_own_object`, `copies_independent`, `refs_alias`,
+     `throwing_copy_leaves_empty`.  Helper lemmas are in `Alpaqa/Proofs/C16*.lean`.
 -/
-import Alpaqa.Gen.C16
-import Alpaqa.Model.C16
+import Alpaqa.Proofs.C16Step
 
 namespace Alpaqa.Props.C16
 open Alpaqa.Gen.C16 Alpaqa.C16
+open Alpaqa.Proofs.C16 hiding large_iff_not_small refSize_spec dispatch_own_object
+  blocks_not_shared buffers_not_shared inv_init
 
 /-! ### 1. The C++ (regenerated) follows the action order the model implements -/
 
@@ -62,8 +66,8 @@ theorem owns_iff (size : Nat) :
 
 /-- Pointer construction yields a non-owning size whose const flag is the pointee's. -/
 theorem refSize_spec (c : Bool) :
-    ownsReferencedObject (refSize c) = false ∧ referencedObjectIsConst (refSize c) = c := by
-  cases c <;> decide
+    ownsReferencedObject (refSize c) = false ∧ referencedObjectIsConst (refSize c) = c :=
+  Proofs.C16.refSize_spec c
 
 /-- A const-referencing size never indicates ownership; the moved-from / default size does. -/
 theorem const_not_owning (size : Nat) (h : referencedObjectIsConst size = true) :
@@ -81,10 +85,8 @@ theorem large_iff_not_small (sz sbs : Nat) :
     deallocateUsesAllocator sz sbs = !allocateUsesSmallBuffer sz sbs ∧
     moveCtorLarge sz sbs = !allocateUsesSmallBuffer sz sbs ∧
     moveCtorAllocLarge sz sbs = !allocateUsesSmallBuffer sz sbs ∧
-    moveAssignLarge sz sbs = !allocateUsesSmallBuffer sz sbs := by
-  simp only [deallocateUsesAllocator, moveCtorLarge, moveCtorAllocLarge, moveAssignLarge,
-    allocateUsesSmallBuffer]
-  by_cases h : sz ≤ sbs <;> simp [h] <;> omega
+    moveAssignLarge sz sbs = !allocateUsesSmallBuffer sz sbs :=
+  Proofs.C16.large_iff_not_small sz sbs
 
 /-- The sentinels are larger than any buffer that fits the address space below them, so a stale
     sentinel in `size` is never mistaken for small-buffer storage. -/
@@ -132,384 +134,429 @@ example :
     (step s (.asMut 0 16)).2 = .excConst ∧ (step s (.asConst 0 16)).2 = .val 0 100 ∧
     (step s (.asConst 0 48)).2 = .excType := by decide
 
-/-! ### 3. Structural invariant of the pool over the ghost heap -/
+/-! ### 3. The invariant of the pool over the ghost heap, for every operation sequence -/
 
-/-- What slot `i`'s wrapper must satisfy: empty ⇒ its buffer holds nothing; pointing into a
-    small buffer ⇒ it is its *own* buffer, which holds a live object, and the size says
-    "owned, small"; pointing to a block ⇒ the block is live, recorded for this slot, allocated by
-    an allocator equal to the one this wrapper will deallocate with, holds a live object, and
-    the size says "owned, large"; pointing outside ⇒ size says "not owned" and the target lives. -/
-def WOk (s : State) (i : Nat) (w : Wrapper) : Prop :=
-  (w.self = none → w.bufObj = none) ∧
-  (∀ j, w.self = some (.buf j) → j = i ∧ w.bufObj.isSome = true ∧
-      ownsReferencedObject w.size = true ∧ allocateUsesSmallBuffer w.size s.cfg.sbs = true) ∧
-  (∀ b, w.self = some (.blk b) → w.bufObj = none ∧ ownsReferencedObject w.size = true ∧
-      allocateUsesSmallBuffer w.size s.cfg.sbs = false ∧ (s.blk b).live = true ∧
-      (s.blk b).owner = i ∧ cls (s.blk b).alloc = cls w.alloc ∧ (s.blk b).obj.isSome = true) ∧
-  (∀ k, w.self = some (.env k) → w.bufObj = none ∧ ownsReferencedObject w.size = false ∧
-      (s.env k).isSome = true)
+/-- The invariant: structural part (`InvS`: no ghost-heap error; every wrapper's `self`, `size`,
+    allocator and storage are consistent; every live block is owned by exactly the wrapper
+    recorded for it and was allocated by an allocator equal to the one it will be returned
+    through; dead blocks were returned through an equal allocator) and id-level part (`InvI`:
+    every id below `nextId` was constructed exactly once and is either alive at exactly one
+    registered location with destruction count 0, or dead with destruction count 1). -/
+def Inv (s : State) : Prop := InvS s ∧ InvI s
 
-structure Inv (s : State) : Prop where
-  /-- no ghost-heap check has failed: no double destroy, no destroy of an unconstructed object,
-      no construction over a live object, no double free, no free through an unequal allocator,
-      no dangling dispatch, no wrapper storage released with a live payload -/
-  noErr : s.err = none
-  wok : ∀ i w, s.wr i = some w → WOk s i w
-  /-- every live block is pointed to by the wrapper recorded as its owner (no leak; together
-      with `wok` two wrappers never point to the same block) -/
-  blkOwner : ∀ b, (s.blk b).live = true →
-    ∃ w, s.wr (s.blk b).owner = some w ∧ w.self = some (.blk b)
-  deadEmpty : ∀ b, (s.blk b).live = false → (s.blk b).obj = none
-  fresh : ∀ b, s.nblk ≤ b → (s.blk b).live = false
-  /-- a block that is no longer live was returned through an allocator equal to its origin -/
-  freedOk : ∀ b, b < s.nblk → (s.blk b).live = false →
-    ∃ a, (s.blk b).freedBy = some a ∧ cls a = cls (s.blk b).alloc
+/-- The only restriction on operations: the payload type of an in-place construction is a
+    genuine `sizeof`, not one of the two reference sentinels (in the C++ `sizeof(T)` cannot be
+    `2^64-1` or `2^64-2`). -/
+def validOp : Op → Prop
+  | .newInPlace _ _ ty _ _ => ownsReferencedObject ty = true
+  | _ => True
 
-theorem inv_init (cfg : Cfg) (a b : Nat) : Inv (initState cfg a b) := by
-  constructor <;> simp [initState, deadBlock]
+theorem inv_init (cfg : Cfg) (a b : Nat) (ha : ownsReferencedObject a = true)
+    (hb : ownsReferencedObject b = true) : Inv (initState cfg a b) := by
+  refine ⟨Proofs.C16.inv_init cfg a b ha hb, ?_⟩
+  constructor
+  · intro id l hl
+    simp only [initState] at hl
+    split at hl
+    · rename_i e; subst e; cases hl
+      exact ⟨by show 0 < 2; omega, rfl, ⟨0, 100, a⟩, by simp [objAt, initState], rfl⟩
+    · split at hl
+      · rename_i e; subst e; cases hl
+        exact ⟨by show 1 < 2; omega, rfl, ⟨1, 101, b⟩, by simp [objAt, initState], rfl⟩
+      · cases hl
+  · intro id hl
+    simp only [initState] at hl ⊢
+    split at hl
+    · cases hl
+    · split at hl
+      · cases hl
+      · rename_i h0 h1
+        have : ¬ id < 2 := by omega
+        simp [this]
+  · intro l o hl
+    cases l with
+    | buf i => simp [objAt, initState] at hl
+    | blk b => simp [objAt, initState, deadBlock] at hl
+    | env k =>
+      simp only [objAt, initState] at hl ⊢
+      split at hl
+      · rename_i e; subst e; cases hl; rfl
+      · split at hl
+        · rename_i e; subst e; cases hl; rfl
+        · cases hl
+  · intro b _; simp [initState, deadBlock]
+  · intro id; rfl
+
+theorem free_none {s : State} {i : Nat} (h : free s i = true) : s.wr i = none := by
+  simp only [free, Bool.and_eq_true, Option.isNone_iff_eq_none] at h; exact h.2
+
+theorem has_some {s : State} {i : Nat} (h : has s i = true) : ∃ w, s.wr i = some w :=
+  Option.isSome_iff_exists.mp h
+
+/-- **Every operation preserves the invariant.** -/
+theorem inv_step {s : State} (h : Inv s) (op : Op) (hv : validOp op) : Inv (step s op).1 := by
+  obtain ⟨hS, hI⟩ := h
+  cases op <;> simp only [step]
+  case newDefault i a =>
+    split
+    · rename_i hf
+      exact ⟨(newW_facts hS (free_none hf) a 0).1, invI_newW hI (free_none hf) a 0⟩
+    · exact ⟨hS, hI⟩
+  case newInPlace i a ty val thr =>
+    split
+    · rename_i hf
+      exact ⟨invS_opNewInPlace hS (free_none hf) a ty val thr hv,
+        invI_opNewInPlace hS hI (free_none hf) a ty val thr⟩
+    · exact ⟨hS, hI⟩
+  case newCopyEnv i a k thr =>
+    split
+    · rename_i hf
+      exact ⟨invS_opNewCopyEnv hS (free_none hf) a k thr, invI_opNewCopyEnv hS hI (free_none hf) a k thr⟩
+    · exact ⟨hS, hI⟩
+  case newMoveEnv i a k =>
+    split
+    · rename_i hf
+      exact ⟨invS_opNewMoveEnv hS (free_none hf) a k, invI_opNewMoveEnv hI (free_none hf) a k⟩
+    · exact ⟨hS, hI⟩
+  case newPtr i a k c =>
+    split
+    · rename_i hf
+      exact ⟨invS_opNewPtr hS (free_none hf) a k c, invI_opNewPtr hI (free_none hf) a k c⟩
+    · exact ⟨hS, hI⟩
+  case copyCtor i j thr =>
+    split
+    · rename_i hg
+      simp only [Bool.and_eq_true] at hg
+      obtain ⟨wj, hj⟩ := has_some hg.2
+      exact ⟨invS_opCopyCtorWith hS (free_none hg.1) hj _ thr,
+        invI_opCopyCtorWith hS hI (free_none hg.1) hj _ thr⟩
+    · exact ⟨hS, hI⟩
+  case copyCtorAlloc i j a thr =>
+    split
+    · rename_i hg
+      simp only [Bool.and_eq_true] at hg
+      obtain ⟨wj, hj⟩ := has_some hg.2
+      exact ⟨invS_opCopyCtorWith hS (free_none hg.1) hj a thr,
+        invI_opCopyCtorWith hS hI (free_none hg.1) hj a thr⟩
+    · exact ⟨hS, hI⟩
+  case moveCtor i j =>
+    split
+    · rename_i hg
+      simp only [Bool.and_eq_true] at hg
+      obtain ⟨wj, hj⟩ := has_some hg.2
+      exact ⟨invS_opMoveCtor hS (free_none hg.1) hj, invI_opMoveCtor hI (free_none hg.1) j⟩
+    · exact ⟨hS, hI⟩
+  case moveCtorAlloc i j a =>
+    split
+    · rename_i hg
+      simp only [Bool.and_eq_true] at hg
+      obtain ⟨wj, hj⟩ := has_some hg.2
+      exact ⟨invS_opMoveCtorAlloc hS (free_none hg.1) hj a, invI_opMoveCtorAlloc hI (free_none hg.1) j a⟩
+    · exact ⟨hS, hI⟩
+  case copyAssign i j thr =>
+    split
+    · rename_i hg
+      simp only [Bool.and_eq_true] at hg
+      obtain ⟨wi, hi⟩ := has_some hg.1
+      obtain ⟨wj, hj⟩ := has_some hg.2
+      exact ⟨invS_opCopyAssign hS hi hj thr, invI_opCopyAssign hI i j thr⟩
+    · exact ⟨hS, hI⟩
+  case moveAssign i j =>
+    split
+    · rename_i hg
+      simp only [Bool.and_eq_true] at hg
+      obtain ⟨wi, hi⟩ := has_some hg.1
+      obtain ⟨wj, hj⟩ := has_some hg.2
+      exact ⟨invS_opMoveAssign hS hi hj, invI_opMoveAssign hI i j⟩
+    · exact ⟨hS, hI⟩
+  case del i =>
+    split
+    · rename_i hg
+      obtain ⟨w, hw⟩ := has_some hg
+      exact ⟨(inv_opDel hS hw).1, invI_opDel hS hI hw⟩
+    · exact ⟨hS, hI⟩
+  case get i =>
+    split
+    · rename_i hg
+      obtain ⟨w, hw⟩ := has_some hg
+      refine ⟨?_, invI_deref hI _⟩
+      simpa [opGet, getW, hw] using inv_deref hS hw
+    · exact ⟨hS, hI⟩
+  case set i v =>
+    split
+    · rename_i hg
+      obtain ⟨w, hw⟩ := has_some hg
+      exact ⟨invS_opSet hS hw v, invI_opSet hI i v⟩
+    · exact ⟨hS, hI⟩
+  case asMut i ty =>
+    split
+    · rename_i hg
+      obtain ⟨w, hw⟩ := has_some hg
+      exact ⟨inv_opAccess hS _ _ hw, invI_opAccess hI _ _ _⟩
+    · exact ⟨hS, hI⟩
+  case asConst i ty =>
+    split
+    · rename_i hg
+      obtain ⟨w, hw⟩ := has_some hg
+      exact ⟨inv_opAccess hS _ _ hw, invI_opAccess hI _ _ _⟩
+    · exact ⟨hS, hI⟩
+  case getPtr i =>
+    split
+    · rename_i hg
+      obtain ⟨w, hw⟩ := has_some hg
+      exact ⟨inv_opAccess hS _ _ hw, invI_opAccess hI _ _ _⟩
+    · exact ⟨hS, hI⟩
+
+/-- **Every operation sequence of any length preserves the invariant.** -/
+theorem inv_run {s : State} (h : Inv s) (ops : List Op) (hv : ∀ op ∈ ops, validOp op) :
+    Inv (run s ops) := by
+  induction ops generalizing s with
+  | nil => exact h
+  | cons o r ih =>
+    exact ih (inv_step h o (hv o (by simp))) (fun op hop => hv op (by simp [hop]))
+
+/-- No ghost-heap check ever fails, for any history: no double destroy, no destroy of an
+    unconstructed object, no construction over a live object, no double free, no free through
+    an unequal allocator, no dangling dispatch, no wrapper released with a live payload. -/
+theorem no_error {s : State} (h : Inv s) (ops : List Op) (hv : ∀ op ∈ ops, validOp op) :
+    (run s ops).err = none := (inv_run h ops hv).1.noErr
+
+/-- Corollaries kept from the first round (operations that carry no side condition). -/
+theorem inv_run_partial {s : State} (h : Inv s) (ops : List Op)
+    (hp : ∀ op ∈ ops, ∀ i a ty v t, op ≠ .newInPlace i a ty v t) : Inv (run s ops) := by
+  apply inv_run h ops
+  intro op hop
+  cases op <;> simp only [validOp]
+  case newInPlace i a ty v t => exact absurd rfl (hp _ hop i a ty v t)
+
+/-! ### Consequences of the invariant -/
 
 /-- Two distinct slots never point to the same heap block. -/
 theorem blocks_not_shared {s : State} (h : Inv s) {i j b : Nat} {wi wj : Wrapper}
     (hi : s.wr i = some wi) (hj : s.wr j = some wj)
-    (si : wi.self = some (.blk b)) (sj : wj.self = some (.blk b)) : i = j := by
-  have a := ((h.wok i wi hi).2.2.1 b si).2.2.2.2.1
-  have c := ((h.wok j wj hj).2.2.1 b sj).2.2.2.2.1
-  omega
+    (si : wi.self = some (.blk b)) (sj : wj.self = some (.blk b)) : i = j :=
+  Proofs.C16.blocks_not_shared h.1 hi hj si sj
 
 /-- No wrapper's `self` points into another wrapper's small buffer. -/
 theorem buffers_not_shared {s : State} (h : Inv s) {i j : Nat} {w : Wrapper}
     (hi : s.wr i = some w) (si : w.self = some (.buf j)) : j = i :=
-  ((h.wok i w hi).2.1 j si).1
+  Proofs.C16.buffers_not_shared h.1 hi si
 
-/-- `dispatch_own_object`: under the invariant a call through a non-empty wrapper is never
-    dangling; it reaches the object living in the wrapper's own buffer, in the block this slot
-    owns, or the referenced environment object — and returns that object's id and value. -/
+/-- `dispatch_own_object`: a call through a non-empty wrapper is never dangling; it reaches the
+    object living in the wrapper's own buffer, in the block this slot owns, or the referenced
+    environment object — and returns that object's id and value. -/
 theorem dispatch_own_object {s : State} (h : Inv s) {i : Nat} {w : Wrapper} {p : Loc}
     (hw : s.wr i = some w) (hs : w.self = some p) :
     ∃ o, objAt s p = some o ∧ (opGet s i).2 = .val o.id o.val ∧ (opGet s i).1.err = none ∧
       (match p with
        | .buf j => j = i ∧ w.bufObj = some o
        | .blk b => (s.blk b).owner = i ∧ (s.blk b).live = true
-       | .env _ => ownsReferencedObject w.size = false) := by
-  have k := h.wok i w hw
-  cases p with
-  | buf j =>
-    obtain ⟨rfl, h2, _, _⟩ := k.2.1 j hs
-    obtain ⟨o, ho⟩ := Option.isSome_iff_exists.mp h2
-    exact ⟨o, by simp [objAt, hw, ho], by simp [opGet, deref, getW, hw, hs, objAt, ho],
-      by simp [opGet, deref, getW, hw, hs, objAt, ho, emit, h.noErr], rfl, ho⟩
-  | blk b =>
-    obtain ⟨_, _, _, h5, h6, _, h8⟩ := k.2.2.1 b hs
-    obtain ⟨o, ho⟩ := Option.isSome_iff_exists.mp h8
-    exact ⟨o, by simp [objAt, ho], by simp [opGet, deref, getW, hw, hs, objAt, ho],
-      by simp [opGet, deref, getW, hw, hs, objAt, ho, emit, h.noErr], h6, h5⟩
-  | env k' =>
-    obtain ⟨_, h3, h4⟩ := k.2.2.2 k' hs
-    obtain ⟨o, ho⟩ := Option.isSome_iff_exists.mp h4
-    exact ⟨o, by simp [objAt, ho], by simp [opGet, deref, getW, hw, hs, objAt, ho],
-      by simp [opGet, deref, getW, hw, hs, objAt, ho, emit, h.noErr], h3⟩
+       | .env _ => ownsReferencedObject w.size = false) :=
+  Proofs.C16.dispatch_own_object h.1 hw hs
 
-/-! #### Frame lemmas -/
-
-/-- `Inv` does not read the ghost counters, ids or the log. -/
-theorem inv_ghost {s s' : State} (h : Inv s) (h1 : s'.cfg = s.cfg) (h2 : s'.wr = s.wr)
-    (h3 : s'.blk = s.blk) (h4 : s'.env = s.env) (h5 : s'.nblk = s.nblk) (h6 : s'.err = s.err) :
-    Inv s' := by
-  obtain ⟨a, b, c, d, e, f⟩ := h
-  constructor
-  · rw [h6]; exact a
-  · intro i w hw; rw [h2] at hw; have := b i w hw; simpa [WOk, h1, h3, h4] using this
-  · intro b' hb; rw [h3] at hb ⊢; rw [h2]; exact c b' hb
-  · intro b'; rw [h3]; exact d b'
-  · intro b'; rw [h3, h5]; exact e b'
-  · intro b'; rw [h3, h5]; exact f b'
-
-/-- Replace the wrapper of slot `i` (or create it) by one that is fine w.r.t. the *same* heap and
-    still points to every live block recorded for slot `i`. -/
-theorem inv_setSlot {s : State} (h : Inv s) {i : Nat} (w' : Wrapper) (hok : WOk s i w')
-    (hblk : ∀ b, (s.blk b).live = true → (s.blk b).owner = i → w'.self = some (.blk b)) :
-    Inv { s with wr := upd s.wr i (some w') } := by
-  obtain ⟨a, b, c, d, e, f⟩ := h
-  constructor
-  · exact a
-  · intro j w hj
-    simp only [upd] at hj
-    split at hj
-    · cases hj; subst_vars; exact hok
-    · exact b j w hj
-  · intro b' hb
-    obtain ⟨w, hw1, hw2⟩ := c b' hb
-    by_cases ho : (s.blk b').owner = i
-    · exact ⟨w', by simp [upd, ho], hblk b' hb ho⟩
-    · exact ⟨w, by simp [upd, ho, hw1], hw2⟩
-  · exact d
-  · exact e
-  · exact f
-
-/-- The owner wrapper of a live block recorded for slot `i` is the wrapper in slot `i`. -/
-theorem owner_points {s : State} (h : Inv s) {i b : Nat} {w : Wrapper} (hw : s.wr i = some w)
-    (hb : (s.blk b).live = true) (ho : (s.blk b).owner = i) : w.self = some (.blk b) := by
-  obtain ⟨w2, h1, h2⟩ := h.blkOwner b hb
-  rw [ho, hw] at h1; cases h1; exact h2
-
-/-- A wrapper whose `self` is null (and buffer empty) can go away. -/
-theorem inv_dropSlot {s : State} (h : Inv s) {i : Nat} {w : Wrapper} (hw : s.wr i = some w)
-    (hs : w.self = none) : Inv { s with wr := upd s.wr i none } := by
-  have hp := fun b hb ho => owner_points h hw (b := b) hb ho
-  obtain ⟨a, b, c, d, e, f⟩ := h
-  constructor
-  · exact a
-  · intro j w2 hj
-    simp only [upd] at hj
-    split at hj
-    · cases hj
-    · exact b j w2 hj
-  · intro b' hb
-    obtain ⟨w2, hw1, hw2⟩ := c b' hb
-    by_cases ho : (s.blk b').owner = i
-    · have := hp b' hb ho; rw [hs] at this; cases this
-    · exact ⟨w2, by simp [upd, ho, hw1], hw2⟩
-  · exact d
-  · exact e
-  · exact f
-
-/-- Free the block slot `i` points to (after its object is gone) and null `self`. -/
-theorem inv_freeBlock {s : State} (h : Inv s) {i b : Nat} {w : Wrapper} (hw : s.wr i = some w)
-    (hs : w.self = some (.blk b)) (B : Block) (hB : B.live = false) (hO : B.obj = none)
-    (hF : ∃ a, B.freedBy = some a ∧ cls a = cls B.alloc) :
-    Inv { s with wr := upd s.wr i (some { w with self := none }), blk := upd s.blk b B } := by
-  have hk := (h.wok i w hw).2.2.1 b hs
-  have hns : ∀ {j w2}, s.wr j = some w2 → w2.self = some (.blk b) → j = i :=
-    fun hj sj => blocks_not_shared h hj hw sj hs
-  have hp := fun b' hb ho => owner_points h hw (b := b') hb ho
-  obtain ⟨a, bb, c, d, e, f⟩ := h
-  constructor
-  · exact a
-  · intro j w2 hj
-    simp only [upd] at hj
-    split at hj
-    · cases hj
-      refine ⟨fun _ => hk.1, ?_, ?_, ?_⟩ <;> intro x hx <;> simp at hx
-    · rename_i hne
-      have k2 := bb j w2 hj
-      refine ⟨k2.1, k2.2.1, ?_, k2.2.2.2⟩
-      intro b' hb'
-      have hbb : b' ≠ b := by
-        intro e'; subst e'; exact hne (hns hj hb')
-      simpa [upd, hbb] using k2.2.2.1 b' hb'
-  · intro b' hb
-    by_cases hbb : b' = b
-    · subst hbb; simp [upd, hB] at hb
-    · simp only [upd, hbb, if_false] at hb ⊢
-      obtain ⟨w2, hw1, hw2⟩ := c b' hb
-      by_cases ho : (s.blk b').owner = i
-      · have := hp b' hb ho; rw [hs] at this; cases this; exact absurd rfl hbb
-      · exact ⟨w2, by simp [ho, hw1], hw2⟩
-  · intro b' hb
-    by_cases hbb : b' = b
-    · subst hbb; simp [upd, hO]
-    · simp only [upd, hbb, if_false] at hb ⊢; exact d b' hb
-  · intro b' hb
-    by_cases hbb : b' = b
-    · subst hbb; simp [upd, hB]
-    · simp only [upd, hbb, if_false]; exact e b' hb
-  · intro b' hb hl
-    by_cases hbb : b' = b
-    · subst hbb; simpa [upd] using hF
-    · simp only [upd, hbb, if_false] at hl ⊢; exact f b' hb hl
-
-@[simp] theorem upd_same {β} (f : Nat → β) (i : Nat) (v : β) : upd f i v i = v := by simp [upd]
-
-theorem upd_upd {β} (f : Nat → β) (i : Nat) (a b : β) : upd (upd f i a) i b = upd f i b := by
-  funext j; simp only [upd]; split <;> rfl
-
-/-- `cleanup()` keeps the invariant and leaves the wrapper empty (buffer empty, `self` null);
-    other slots are untouched. -/
-theorem inv_wCleanup {s : State} (h : Inv s) {i : Nat} {w : Wrapper} (hw : s.wr i = some w) :
-    Inv (wCleanup s i) ∧ (∃ w', (wCleanup s i).wr i = some w' ∧ w'.self = none ∧
-      w'.alloc = w.alloc) ∧ ∀ j, j ≠ i → (wCleanup s i).wr j = s.wr j := by
-  have hk := h.wok i w hw
-  cases hs : w.self with
-  | none =>
-    have hb := hk.1 hs
-    by_cases ho : ownsReferencedObject w.size = true
-    · simp only [wCleanup, getW, hw, Option.getD_some, ho, hs]
-      exact ⟨by simpa using h, ⟨w, by simpa using hw, hs, rfl⟩, fun j _ => by simp⟩
-    · simp only [wCleanup, getW, hw, Option.getD_some, ho, modW]
-      have ho' : ownsReferencedObject w.size = false := by simpa using ho
-      simp only [Bool.not_false, ite_true]
-      refine ⟨?_, ⟨_, upd_same _ _ _, rfl, rfl⟩, fun j hj => by simp [upd, hj]⟩
-      apply inv_setSlot h
-      · exact ⟨fun _ => hb, by simp, by simp, by simp⟩
-      · intro b hb' ho'; have := owner_points h hw hb' ho'; rw [hs] at this; cases this
-  | some p =>
+/-- `copies_independent` (general form): in every reachable state two distinct owning wrappers
+    point to different storage holding objects with different ids — a call through one never
+    reaches the other's object. -/
+theorem owners_disjoint {s : State} (h : Inv s) {i j : Nat} {wi wj : Wrapper} {p q : Loc}
+    (hij : i ≠ j) (hi : s.wr i = some wi) (hj : s.wr j = some wj)
+    (oi : ownsReferencedObject wi.size = true) (_oj : ownsReferencedObject wj.size = true)
+    (hp : wi.self = some p) (hq : wj.self = some q) :
+    p ≠ q ∧ ∀ a b, objAt s p = some a → objAt s q = some b → a.id ≠ b.id := by
+  have ki := h.1.wok i wi hi
+  have kj := h.1.wok j wj hj
+  have hne : p ≠ q := by
+    intro e; subst e
     cases p with
-    | buf j =>
-      obtain ⟨rfl, h2, h3, h4⟩ := hk.2.1 j hs
-      obtain ⟨o, ho⟩ := Option.isSome_iff_exists.mp h2
-      have hd : deallocateUsesAllocator w.size s.cfg.sbs = false := by
-        rw [(large_iff_not_small _ _).1, h4]; rfl
-      simp only [wCleanup, getW, hw, Option.getD_some, h3, hs, destroyAt, objAt, ho, setObj, modW,
-        emit, wDeallocate, upd_same, hd, upd_upd, Bool.not_true, Bool.false_eq_true, ite_false]
-      refine ⟨?_, ⟨{ w with self := none, bufObj := none }, rfl, rfl, rfl⟩,
-        fun j hj => by simp [upd, hj]⟩
-      have hI := inv_setSlot h (i := j) { w with self := none, bufObj := none }
-        ⟨fun _ => rfl, by simp, by simp, by simp⟩
-        (by intro b hb' ho'; have := owner_points h hw hb' ho'; rw [hs] at this; cases this)
-      exact inv_ghost hI rfl rfl rfl rfl rfl rfl
-    | blk b =>
-      obtain ⟨h2, h3, h4, h5, h6, h7, h8⟩ := hk.2.2.1 b hs
-      obtain ⟨o, ho⟩ := Option.isSome_iff_exists.mp h8
-      have hd : deallocateUsesAllocator w.size s.cfg.sbs = true := by
-        rw [(large_iff_not_small _ _).1, h4]; rfl
-      simp only [wCleanup, getW, hw, Option.getD_some, h3, hs, destroyAt, objAt, ho, setObj, modW,
-        emit, wDeallocate, upd_same, hd, upd_upd, heapFree, h5, h7, Bool.not_true,
-        Bool.false_eq_true, ite_false, ite_true, bne_self_eq_false, Option.isSome_none]
-      refine ⟨?_, ⟨{ w with self := none }, rfl, rfl, rfl⟩, fun j hj => by simp [upd, hj]⟩
-      have hI := inv_freeBlock h hw hs
-        ⟨(s.blk b).alloc, (s.blk b).size, false, none, (s.blk b).owner, some w.alloc⟩ rfl rfl
-        ⟨w.alloc, rfl, h7.symm⟩
-      exact inv_ghost hI rfl rfl rfl rfl rfl rfl
-    | env k =>
-      obtain ⟨h2, h3, h4⟩ := hk.2.2.2 k hs
-      simp only [wCleanup, getW, hw, Option.getD_some, h3, modW, Bool.not_false, ite_true]
-      refine ⟨?_, ⟨_, upd_same _ _ _, rfl, rfl⟩, fun j hj => by simp [upd, hj]⟩
-      apply inv_setSlot h
-      · exact ⟨fun _ => h2, by simp, by simp, by simp⟩
-      · intro b hb' ho'; have := owner_points h hw hb' ho'; rw [hs] at this; cases this
+    | buf k => exact hij (((ki.2.1 k hp).1).symm.trans (kj.2.1 k hq).1)
+    | blk b => exact hij (Proofs.C16.blocks_not_shared h.1 hi hj hp hq)
+    | env k => have := (ki.2.2.2 k hp).2.1; rw [oi] at this; cases this
+  refine ⟨hne, ?_⟩
+  intro a b ha hb e
+  have r1 := h.2.objReg p a ha
+  have r2 := h.2.objReg q b hb
+  rw [e, r2] at r1
+  cases r1; exact hne rfl
 
-/-- Destroying a wrapper (`~TypeErased`: cleanup, then the storage goes away). -/
-theorem inv_opDel {s : State} (h : Inv s) {i : Nat} {w : Wrapper} (hw : s.wr i = some w) :
-    Inv (opDel s i).1 ∧ (opDel s i).1.wr i = none ∧ ∀ j, j ≠ i → (opDel s i).1.wr j = s.wr j := by
-  obtain ⟨hI, ⟨w', hw', hs', _⟩, hfr⟩ := inv_wCleanup h hw
-  have hb := (hI.wok i w' hw').1 hs'
-  simp only [opDel, dropW, getW, hw', Option.getD_some, hb, hs', Option.isSome_none,
-    Bool.false_eq_true, ite_false]
-  exact ⟨inv_dropSlot hI hw' hs', by simp, fun j hj => by simp [upd, hj, hfr j hj]⟩
+/-- A non-const call through an owning wrapper does not change what any other owning wrapper
+    reads (copies are independent). -/
+theorem set_is_local {s : State} (h : Inv s) {i j : Nat} {wi wj : Wrapper} {p q : Loc}
+    (hij : i ≠ j) (hi : s.wr i = some wi) (hj : s.wr j = some wj)
+    (oi : ownsReferencedObject wi.size = true) (oj : ownsReferencedObject wj.size = true)
+    (hp : wi.self = some p) (hq : wj.self = some q) (v : Nat) :
+    (opGet (opSet s i v).1 j).2 = (opGet s j).2 := by
+  obtain ⟨hne, _⟩ := owners_disjoint h hij hi hj oi oj hp hq
+  obtain ⟨o, ho, _⟩ := dispatch_own_object h hi hp
+  have hnc : referencedObjectIsConst wi.size = false := by
+    cases hc : referencedObjectIsConst wi.size with
+    | false => rfl
+    | true => have := const_not_owning _ hc; rw [oi] at this; cases this
+  have hwr : ∀ i', p = .buf i' → (s.wr i').isSome = true := wr_some_of_objAt ho
+  have hobj : ∀ l, l ≠ p → objAt (opSet s i v).1 l = objAt s l := by
+    intro l hl
+    simp only [opSet, getW, hi, Option.getD_some, hp, hnc, Bool.and_false, Bool.false_eq_true,
+      ite_false, ho]
+    have : objAt (emit (setObj s p (some { o with val := v })) (.write o.id v)) l =
+        objAt (setObj s p (some { o with val := v })) l := objAt_congr rfl rfl rfl l
+    rw [this, objAt_setObj hwr]; simp [hl]
+  have hwj : ∃ wj', (opSet s i v).1.wr j = some wj' ∧ wj'.self = some q := by
+    simp only [opSet, getW, hi, Option.getD_some, hp, hnc, Bool.and_false, Bool.false_eq_true,
+      ite_false, ho]
+    cases p with
+    | buf k =>
+      have hk : k = i := (h.1.wok i wi hi).2.1 k hp |>.1
+      subst hk
+      refine ⟨wj, ?_, hq⟩
+      simp only [setObj, modW, hi, emit]
+      rw [upd_ne _ _ (fun e => hij e.symm)]; exact hj
+    | blk b => exact ⟨wj, by simp [setObj, emit, hj], hq⟩
+    | env k => exact ⟨wj, by simp [setObj, emit, hj], hq⟩
+  obtain ⟨wj', hwj', hq'⟩ := hwj
+  simp only [opGet, deref, getW, hj, hwj', Option.getD_some, hq, hq', hobj q (fun e => hne e.symm)]
+  cases objAt s q <;> rfl
 
-theorem inv_emit {s : State} (h : Inv s) (e : Ev) : Inv (emit s e) :=
-  inv_ghost h rfl rfl rfl rfl rfl rfl
+/-- `refs_alias`: a call through a non-owning wrapper reaches the referenced environment object
+    itself (so every reference to environment object `k`, however it was copied or moved,
+    observes the same object). -/
+theorem refs_alias {s : State} (h : Inv s) {i : Nat} {w : Wrapper} {p : Loc}
+    (hw : s.wr i = some w) (hs : w.self = some p) (hn : ownsReferencedObject w.size = false) :
+    ∃ k o, p = .env k ∧ s.env k = some o ∧ (opGet s i).2 = .val o.id o.val := by
+  have k := h.1.wok i w hw
+  cases p with
+  | buf j => have := (k.2.1 j hs).2.2.1; rw [hn] at this; cases this
+  | blk b => have := (k.2.2.1 b hs).2.1; rw [hn] at this; cases this
+  | env e =>
+    obtain ⟨o, ho, hg, _⟩ := dispatch_own_object h hw hs
+    exact ⟨e, o, rfl, by simpa [objAt] using ho, hg⟩
 
-theorem inv_newW {s : State} (h : Inv s) {i : Nat} (hf : s.wr i = none) (w' : Wrapper)
-    (hok : WOk s i w') : Inv { s with wr := upd s.wr i (some w') } := by
-  apply inv_setSlot h w' hok
-  intro b hb ho
-  obtain ⟨w, hw1, _⟩ := h.blkOwner b hb
-  rw [ho, hf] at hw1; cases hw1
+/-- Copy construction from an owning, non-empty wrapper (payload copy constructor does not throw):
+    the new wrapper owns a *different* object in its *own* storage, with the same value; the
+    source is untouched. -/
+theorem copies_independent {s : State} (h : Inv s) {i j : Nat} {wj : Wrapper} {p : Loc} {o : Obj}
+    (hf : free s i = true) (hj : s.wr j = some wj) (hp : wj.self = some p)
+    (ho : ownsReferencedObject wj.size = true) (hobj : objAt s p = some o) :
+    let r := (step s (.copyCtor i j false)).1
+    Inv r ∧ ∃ w' q o', r.wr i = some w' ∧ w'.self = some q ∧ ownsReferencedObject w'.size = true ∧
+      objAt r q = some o' ∧ o'.val = o.val ∧ r.wr j = some wj ∧
+      q ≠ p ∧ (∀ b, objAt r p = some b → o'.id ≠ b.id) := by
+  intro r
+  have hI : Inv r := inv_step h _ trivial
+  have hfn := free_none hf
+  have hij : i ≠ j := by intro e; subst e; rw [hfn] at hj; cases hj
+  have hji : j ≠ i := fun e => hij e.symm
+  have hhas : has s j = true := by simp [has, hj]
+  obtain ⟨h1, hw1, hfr⟩ := newW_facts h.1 hfn (if s.cfg.socc = true then 0 else (getW s j).alloc)
+    (getW s j).vtTy
+  have hj1 : (newW s i (if s.cfg.socc = true then 0 else (getW s j).alloc) (getW s j).vtTy).wr j
+      = some wj := by rw [hfr j hji]; exact hj
+  have hobj1 : objAt (newW s i (if s.cfg.socc = true then 0 else (getW s j).alloc)
+      (getW s j).vtTy) p = some o := by
+    cases p with
+    | buf k =>
+      have hk : k = j := (h.1.wok j wj hj).2.1 k hp |>.1
+      subst hk
+      have hki : ¬ k = i := fun e => hij e.symm
+      simp only [objAt, newW, upd, hki, if_false]
+      simpa [objAt] using hobj
+    | blk b => simpa [objAt, newW] using hobj
+    | env k => simpa [objAt, newW] using hobj
+  obtain ⟨_, _, _, q4⟩ := invS_doCopyAssign h1 hw1 rfl hj1 hij false false
+  obtain ⟨w', q, n, r1, r2, r3, r4, r5⟩ := q4 rfl p o hp ho hobj1
+  have hbeq : ((Alpaqa.C16.doCopyAssign (newW s i (if s.cfg.socc = true then 0 else (getW s j).alloc)
+      (getW s j).vtTy) false i j false).2 == Out.excCopy) = false := by
+    rw [doCopyAssign_snd_ok]; rfl
+  have hr : r = (Alpaqa.C16.doCopyAssign (newW s i (if s.cfg.socc = true then 0 else (getW s j).alloc)
+      (getW s j).vtTy) false i j false).1 := by
+    show (step s (.copyCtor i j false)).1 = _
+    simp only [step, hf, hhas, Bool.and_self, ite_true, opCopyCtorWith, hbeq, Bool.false_eq_true,
+      ite_false]
+  rw [hr] at hI ⊢
+  have hw'o : ownsReferencedObject w'.size = true := by rw [r3]; exact ho
+  obtain ⟨d1, d2⟩ := owners_disjoint hI hij r1 r5 hw'o ho r2 hp
+  exact ⟨hI, w', q, _, r1, r2, hw'o, r4, rfl, r5, d1, fun b hb => d2 _ b r4 hb⟩
 
-theorem inv_deref {s : State} (h : Inv s) {i : Nat} {w : Wrapper} (hw : s.wr i = some w) :
-    Inv (deref s w).1 := by
-  cases hs : w.self with
-  | none => simpa [deref, hs] using h
-  | some p =>
-    obtain ⟨o, ho, _, _, _⟩ := dispatch_own_object h hw hs
-    simpa [deref, hs, ho] using inv_emit h _
+/-- Copy construction from a *reference* wrapper: the copy refers to the same environment
+    object (references are shallow-copied, so they alias). -/
+theorem copy_of_ref_aliases {s : State} (h : Inv s) {i j k : Nat} {wj : Wrapper}
+    (hf : free s i = true) (hj : s.wr j = some wj) (hp : wj.self = some (.env k))
+    (hn : ownsReferencedObject wj.size = false) :
+    let r := (step s (.copyCtor i j false)).1
+    Inv r ∧ (∃ w', r.wr i = some w' ∧ w'.self = some (.env k) ∧ w'.size = wj.size) ∧
+      r.wr j = some wj ∧ r.env = s.env := by
+  intro r
+  have hI : Inv r := inv_step h _ trivial
+  refine ⟨hI, ?_⟩
+  have hfn := free_none hf
+  have hij : i ≠ j := by intro e; subst e; rw [hfn] at hj; cases hj
+  have hji : j ≠ i := fun e => hij e.symm
+  have hhas : has s j = true := by simp [has, hj]
+  obtain ⟨_, hw1, hfr⟩ := newW_facts h.1 hfn (if s.cfg.socc = true then 0 else (getW s j).alloc)
+    (getW s j).vtTy
+  have hg1 : getW (newW s i (if s.cfg.socc = true then 0 else (getW s j).alloc) (getW s j).vtTy) j
+      = wj := by
+    have := hfr j hji
+    simp only [getW] at this ⊢
+    rw [this, hj]; rfl
+  have hD := doCopyAssign_ref (s := newW s i (if s.cfg.socc = true then 0 else (getW s j).alloc)
+    (getW s j).vtTy) i j false (p := .env k) (by rw [hg1]; exact hp) (by rw [hg1]; exact hn)
+  have hr : r = (modW (newW s i (if s.cfg.socc = true then 0 else (getW s j).alloc) (getW s j).vtTy) i
+      fun w => { w with size := wj.size, self := wj.self }) := by
+    show (step s (.copyCtor i j false)).1 = _
+    simp only [step, hf, hhas, Bool.and_self, ite_true, opCopyCtorWith, hD, hg1]
+    rfl
+  rw [hr]
+  refine ⟨?_, ?_, ?_⟩
+  · rw [modW_wr hw1, upd_same]
+    exact ⟨_, rfl, hp, rfl⟩
+  · rw [modW_wr_other _ _ _ hji, hfr j hji]; exact hj
+  · exact (modW_fields _ _ _).2.2.2.2.2.2.1
 
-theorem inv_opAccess {s : State} (h : Inv s) (gs : List Guard) {i : Nat} (ty : Nat) {w : Wrapper}
-    (hw : s.wr i = some w) : Inv (opAccess s gs i ty).1 := by
-  simp only [opAccess, getW, hw, Option.getD_some]
-  split
-  · exact h
-  · split
-    · exact inv_deref h hw
-    · exact h
-
-/-- The operations for which preservation of `Inv` is proved here. -/
-def proved : Op → Bool
-  | .newDefault .. | .newPtr .. | .del _ | .get _ | .asMut .. | .asConst .. | .getPtr _ => true
-  | .copyAssign i j _ => i == j
-  | .moveAssign i j => i == j
-  | _ => false
-
-/-- **Partial.**  `Inv` is preserved by wrapper destruction (`cleanup()` on every storage shape:
-    empty, small buffer, heap block, reference — the path every assignment starts with),
-    default / pointer construction, const and non-const accessors, and self-assignment.
-
-    Full statement (not reached in this file; the remaining operations are tied to the real code by
-    event-log correspondence and checked by the monitors only):
-      `theorem inv_step (h : Inv s) (op : Op) : Inv (step s op).1`
-      `theorem inv_run (h : Inv s) (ops : List Op) : Inv (run s ops)`
-    Missing: the preservation lemmas for `doCopyAssign` (guarded allocate / copy-construct /
-    release, incl. the throwing branch), `steal`, `moveSmall`, `moveRealloc` and for `opSet`,
-    i.e. the ops `newInPlace newCopyEnv newMoveEnv copyCtor copyCtorAlloc moveCtor moveCtorAlloc
-    copyAssign moveAssign set`; and the id-level conjuncts (`where_`, `dcnt`) needed for
-    `construct_destroy_once`.  The frame lemmas `inv_setSlot`, `inv_freeBlock`, `inv_ghost` above
-    are the ones those proofs need. -/
-theorem inv_step_partial {s : State} (h : Inv s) (op : Op) (hp : proved op = true) :
-    Inv (step s op).1 := by
-  cases op <;> simp only [proved, Bool.false_eq_true] at hp
-  case newDefault i a =>
-    simp only [step]; split
-    · rename_i hf
-      simp only [free, Bool.and_eq_true, Option.isNone_iff_eq_none] at hf
-      exact inv_newW h hf.2 _ ⟨fun _ => rfl, by simp [blankW], by simp [blankW], by simp [blankW]⟩
-    · exact h
-  case newPtr i a k c =>
-    simp only [step]; split
-    · rename_i hf
-      simp only [free, Bool.and_eq_true, Option.isNone_iff_eq_none] at hf
-      simp only [opNewPtr]
-      cases he : s.env k with
-      | none => exact h
-      | some o =>
-        simp only [newW, modW, upd_same, upd_upd]
-        apply inv_newW h hf.2
-        refine ⟨by simp, by simp, by simp, ?_⟩
-        intro k' hk'
-        simp only [Option.some.injEq, Loc.env.injEq] at hk'
-        subst hk'
-        exact ⟨rfl, (refSize_spec c).1, by simp [he]⟩
-    · exact h
-  case del i =>
-    simp only [step]; split
-    · rename_i hh
-      obtain ⟨w, hw⟩ := Option.isSome_iff_exists.mp hh
-      exact (inv_opDel h hw).1
-    · exact h
-  case get i =>
-    simp only [step]; split
-    · rename_i hh
-      obtain ⟨w, hw⟩ := Option.isSome_iff_exists.mp hh
-      simpa [opGet, getW, hw] using inv_deref h hw
-    · exact h
-  case asMut i ty =>
-    simp only [step]; split
-    · rename_i hh
-      obtain ⟨w, hw⟩ := Option.isSome_iff_exists.mp hh
-      exact inv_opAccess h _ _ hw
-    · exact h
-  case asConst i ty =>
-    simp only [step]; split
-    · rename_i hh
-      obtain ⟨w, hw⟩ := Option.isSome_iff_exists.mp hh
-      exact inv_opAccess h _ _ hw
-    · exact h
-  case getPtr i =>
-    simp only [step]; split
-    · rename_i hh
-      obtain ⟨w, hw⟩ := Option.isSome_iff_exists.mp hh
-      exact inv_opAccess h _ _ hw
-    · exact h
-  case copyAssign i j t =>
-    have : i = j := by simpa using hp
-    subst this
-    simp only [step, opCopyAssign]; split <;> simpa using h
-  case moveAssign i j =>
-    have : i = j := by simpa using hp
-    subst this
-    simp only [step, opMoveAssign]; split <;> simpa using h
-
-/-- Unbounded histories over the proved operations: the invariant holds after every sequence,
-    in particular no ghost-heap check ever fails. -/
-theorem inv_run_partial {s : State} (h : Inv s) (ops : List Op) (hp : ∀ op ∈ ops, proved op = true) :
-    Inv (run s ops) := by
-  induction ops generalizing s with
-  | nil => exact h
-  | cons o r ih =>
-    exact ih (inv_step_partial h o (hp o (by simp))) (fun op hop => hp op (by simp [hop]))
-
-theorem no_error_partial {s : State} (h : Inv s) (ops : List Op) (hp : ∀ op ∈ ops, proved op = true) :
-    (run s ops).err = none := (inv_run_partial h ops hp).noErr
+/-- `throwing_copy_leaves_empty`: copy assignment from an owning, non-empty wrapper whose
+    payload copy constructor throws yields the exception outcome; afterwards the invariant holds
+    (so nothing was destroyed that was not constructed, and the storage obtained for the copy was
+    returned), the target wrapper is empty (`self` null, buffer empty), no live block is
+    recorded for it, and the source wrapper is untouched. -/
+theorem throwing_copy_leaves_empty {s : State} (h : Inv s) {i j : Nat} {wi wj : Wrapper} {p : Loc}
+    (hi : s.wr i = some wi) (hj : s.wr j = some wj) (hij : i ≠ j) (hp : wj.self = some p)
+    (ho : ownsReferencedObject wj.size = true) :
+    let r := step s (.copyAssign i j true)
+    r.2 = .excCopy ∧ Inv r.1 ∧
+      (∃ w', r.1.wr i = some w' ∧ w'.self = none ∧ w'.bufObj = none) ∧
+      (∀ b, (r.1.blk b).live = true → (r.1.blk b).owner ≠ i) ∧ r.1.wr j = some wj := by
+  intro r
+  have hI : Inv r.1 := inv_step h _ trivial
+  have hji : j ≠ i := fun e => hij e.symm
+  obtain ⟨h1, ⟨w1, hw1, hs1, _⟩, hfr⟩ := inv_wCleanup h.1 hi
+  have hj1 : (wCleanup s i).wr j = some wj := by rw [hfr j hji]; exact hj
+  have h2 := invS_modW_empty h1 hw1 hs1
+    (fun w => { w with vtTy := (getW (wCleanup s i) j).vtTy }) ⟨hs1, rfl⟩
+  have hw2 := modW_wr hw1 (fun w => { w with vtTy := (getW (wCleanup s i) j).vtTy })
+  have hj2 : (modW (wCleanup s i) i fun w => { w with vtTy := (getW (wCleanup s i) j).vtTy }).wr j
+      = some wj := by rw [hw2, upd_ne _ _ hji]; exact hj1
+  have hi2 : (modW (wCleanup s i) i fun w => { w with vtTy := (getW (wCleanup s i) j).vtTy }).wr i
+      = some { w1 with vtTy := (getW (wCleanup s i) j).vtTy } := by rw [hw2]; simp
+  obtain ⟨q1, q2, _, _⟩ := invS_doCopyAssign h2 hi2 hs1 hj2 hij true true
+  have hg2 : getW (modW (wCleanup s i) i fun w => { w with vtTy := (getW (wCleanup s i) j).vtTy }) j
+      = wj := by
+    have := hj2
+    simp only [getW] at this ⊢
+    rw [this]; rfl
+  have hexc := doCopyAssign_snd_exc (s := modW (wCleanup s i) i fun w =>
+      { w with vtTy := (getW (wCleanup s i) j).vtTy }) true i j (p := p)
+    (by rw [hg2]; exact hp) (by rw [hg2]; exact ho)
+  have hr : r = Alpaqa.C16.doCopyAssign
+      (modW (wCleanup s i) i fun w => { w with vtTy := (getW (wCleanup s i) j).vtTy })
+      true i j true := by
+    show step s (.copyAssign i j true) = _
+    simp only [step, has, hi, hj, Option.isSome_some, Bool.and_self, ite_true, opCopyAssign, hij,
+      ite_false]
+  obtain ⟨w', r1, r2⟩ := q2 hexc
+  have hb := (q1.wok i w' r1).1 r2
+  rw [hr] at hI ⊢
+  refine ⟨hexc, hI, ⟨w', r1, r2, hb⟩, ?_, ?_⟩
+  · intro b hb' e
+    obtain ⟨w2, hw2', hs2'⟩ := q1.blkOwner b hb'
+    rw [e, r1] at hw2'; cases hw2'; rw [r2] at hs2'; cases hs2'
+  · rw [doCopyAssign_wr_other hi2 j hji]; exact hj2
 
 /-- Destroying every wrapper of the pool keeps the invariant and empties the slots. -/
 theorem inv_delAll {s : State} (h : Inv s) (n : Nat) :
@@ -520,9 +567,9 @@ theorem inv_delAll {s : State} (h : Inv s) (n : Nat) :
   | succ n ih =>
     simp only [delAll]
     by_cases hh : has s n = true
-    · obtain ⟨w, hw⟩ := Option.isSome_iff_exists.mp hh
-      obtain ⟨hI, hn, hfr⟩ := inv_opDel h hw
-      obtain ⟨a, b, c⟩ := ih hI
+    · obtain ⟨w, hw⟩ := has_some hh
+      obtain ⟨hI, hn, hfr⟩ := inv_opDel h.1 hw
+      obtain ⟨a, b, c⟩ := ih ⟨hI, invI_opDel h.1 h.2 hw⟩
       simp only [hh, ite_true]
       refine ⟨a, ?_, ?_⟩
       · intro i hi
@@ -541,34 +588,97 @@ theorem inv_delAll {s : State} (h : Inv s) (n : Nat) :
         subst this; rw [c i (Nat.le_refl _)]
         simpa [has] using hh
 
-/-- `blocks_returned_to_origin`: from *any* state satisfying the invariant, once every wrapper
-    of the pool has been destroyed, every block ever allocated is dead and was deallocated
-    through an allocator that compares equal to the one that allocated it. -/
-theorem blocks_returned_to_origin {s : State} (h : Inv s) (hpool : ∀ i, s.cfg.npool ≤ i → s.wr i = none) :
+/-- `blocks_returned_to_origin`: from *any* state satisfying the invariant (hence after any
+    operation sequence), once every wrapper of the pool has been destroyed, every block ever
+    allocated is dead and was deallocated through an allocator that compares equal to the one
+    that allocated it. -/
+theorem blocks_returned_to_origin {s : State} (h : Inv s)
+    (hpool : ∀ i, s.cfg.npool ≤ i → s.wr i = none) :
     let f := delAll s s.cfg.npool
     f.err = none ∧ ∀ b, b < f.nblk → (f.blk b).live = false ∧
       ∃ a, (f.blk b).freedBy = some a ∧ cls a = cls (f.blk b).alloc := by
   obtain ⟨hI, hz, hk⟩ := inv_delAll h s.cfg.npool
-  refine ⟨hI.noErr, ?_⟩
+  refine ⟨hI.1.noErr, ?_⟩
   intro b hb
   have hl : ((delAll s s.cfg.npool).blk b).live = false := by
     cases hlv : ((delAll s s.cfg.npool).blk b).live with
     | false => rfl
     | true =>
-      obtain ⟨w, hw, _⟩ := hI.blkOwner b hlv
+      obtain ⟨w, hw, _⟩ := hI.1.blkOwner b hlv
       by_cases hi : ((delAll s s.cfg.npool).blk b).owner < s.cfg.npool
       · rw [hz _ hi] at hw; cases hw
       · rw [hk _ (by omega), hpool _ (by omega)] at hw; cases hw
-  exact ⟨hl, hI.freedOk b hb hl⟩
+  exact ⟨hl, hI.1.freedOk b hb hl⟩
 
-/-- Non-vacuity: a heap payload and a small payload are constructed, a const reference is made,
-    everything is destroyed: both blocks were returned to an equal allocator, no
-    ghost error, every object destroyed exactly once. -/
+/-- `construct_destroy_once`: from any state satisfying the invariant (hence after any operation
+    sequence), once every wrapper of the pool has been destroyed, every payload id ever handed
+    out has exactly one construction, and exactly one destruction — except the objects the
+    environment still owns, which are alive with no destruction. -/
+theorem construct_destroy_once {s : State} (h : Inv s)
+    (hpool : ∀ i, s.cfg.npool ≤ i → s.wr i = none) :
+    let f := delAll s s.cfg.npool
+    f.err = none ∧ ∀ id, id < f.nextId → f.ccnt id = 1 ∧
+      (f.dcnt id = 1 ∨ (f.dcnt id = 0 ∧ ∃ k o, f.env k = some o ∧ o.id = id)) := by
+  obtain ⟨hI, hz, hk⟩ := inv_delAll h s.cfg.npool
+  have hnone : ∀ i, (delAll s s.cfg.npool).wr i = none := by
+    intro i
+    by_cases hi : i < s.cfg.npool
+    · exact hz i hi
+    · rw [hk i (by omega)]; exact hpool i (by omega)
+  refine ⟨hI.1.noErr, ?_⟩
+  intro id hid
+  refine ⟨by have := hI.2.ctorOnce id; simpa [hid] using this, ?_⟩
+  cases hw : (delAll s s.cfg.npool).where_ id with
+  | none =>
+    left
+    have := hI.2.idDead id hw
+    simpa [hid] using this
+  | some l =>
+    right
+    obtain ⟨_, hd, o, ho, hoid⟩ := hI.2.idLive id l hw
+    refine ⟨hd, ?_⟩
+    cases l with
+    | buf i => simp [objAt, hnone i] at ho
+    | blk b =>
+      simp only [objAt] at ho
+      cases hlv : ((delAll s s.cfg.npool).blk b).live with
+      | false => rw [hI.1.deadEmpty b hlv] at ho; cases ho
+      | true =>
+        obtain ⟨w, hw', _⟩ := hI.1.blkOwner b hlv
+        rw [hnone] at hw'; cases hw'
+    | env k => exact ⟨k, o, by simpa [objAt] using ho, hoid⟩
+
+/-- The same for a whole history from the initial pool: any operation sequence, then every
+    wrapper destroyed. -/
+theorem construct_destroy_once_run (cfg : Cfg) (a b : Nat) (ha : ownsReferencedObject a = true)
+    (hb : ownsReferencedObject b = true) (ops : List Op) (hv : ∀ op ∈ ops, validOp op)
+    (hpool : ∀ i, cfg.npool ≤ i → (run (initState cfg a b) ops).wr i = none)
+    (hcfg : (run (initState cfg a b) ops).cfg = cfg) :
+    let f := delAll (run (initState cfg a b) ops) cfg.npool
+    f.err = none ∧
+    (∀ id, id < f.nextId → f.ccnt id = 1 ∧
+      (f.dcnt id = 1 ∨ (f.dcnt id = 0 ∧ ∃ k o, f.env k = some o ∧ o.id = id))) ∧
+    ∀ b', b' < f.nblk → (f.blk b').live = false ∧
+      ∃ a', (f.blk b').freedBy = some a' ∧ cls a' = cls (f.blk b').alloc := by
+  have hI := inv_run (inv_init cfg a b ha hb) ops hv
+  have h1 := construct_destroy_once hI (by rw [hcfg]; exact hpool)
+  have h2 := blocks_returned_to_origin hI (by rw [hcfg]; exact hpool)
+  rw [hcfg] at h1 h2
+  exact ⟨h1.1, h1.2, h2.2⟩
+
+/-- Non-vacuity: a heap payload and a small payload are constructed, moved, copied, a const
+    reference is made, everything is destroyed: both blocks were returned to an equal allocator,
+    no ghost error, every object constructed and destroyed exactly once. -/
 example :
     let s0 := initState ⟨32, false, true, false, 3⟩ 16 48
     let s := run s0 [.newInPlace 0 2 48 7 false, .newInPlace 1 0 16 5 false, .moveAssign 1 0,
                      .copyCtor 2 1 false, .del 0, .newPtr 0 1 0 true, .del 1]
     let f := finish s
     f.err = none ∧ badIds f = 0 ∧ badBlocks f = 0 ∧ f.nblk = 2 ∧ f.nextId = 5 := by decide
+
+/-- Non-vacuity of the hypotheses of `inv_init` / `validOp` for the sizes the harness uses. -/
+example : ownsReferencedObject 16 = true ∧ ownsReferencedObject 32 = true ∧
+    ownsReferencedObject 48 = true ∧ validOp (.newInPlace 0 0 48 7 false) :=
+  ⟨by decide, by decide, by decide, by simp only [validOp]; decide⟩
 
 end Alpaqa.Props.C16
